@@ -37,11 +37,11 @@ func init() {
 				"fsync is honoured by the simulated disk; unsynced data and directory entries are lost at a crash, optionally leaving a torn tail",
 			}})
 	}
-	sh("C01", 90, 1200, runner.Part{Scenario: "simhost", Params: p("pdup", "0"), Share: 3},
+	sh("C01", 120, 1200, runner.Part{Scenario: "simhost", Params: p("pdup", "0"), Share: 3},
 		runner.Part{Scenario: "simhost", Params: p("pdup", "0", "readmix", "60", "ppartition", "8", "ptransfer", "8"), Share: 2},
 		// leadership going back and forth (transfers, splits) under message loss and delay, many reads
 		runner.Part{Scenario: "simhost", Params: p("pdup", "0", "readmix", "70", "ptransfer", "15", "pdrop", "10", "preorder", "40", "ppartition", "10", "pheal", "10", "clients", "4", "keys", "1"), Share: 2})
-	sh("C02", 90, 1200, runner.Part{Scenario: "simhost", Share: 3},
+	sh("C02", 120, 1200, runner.Part{Scenario: "simhost", Share: 3},
 		runner.Part{Scenario: "simhost", Params: p("pmember", "10", "hosts", "4"), Share: 1},
 		// few voters with non-voting members / witnesses, crashes between send and save
 		runner.Part{Scenario: "simhost", Params: p("hosts", "2", "voters", "1", "memberbias", "1", "pmember", "80", "pcrash", "20", "prestart", "100", "fsyield", "500", "readmix", "0", "clients", "3", "steps", "1200", "sessions", "0"), Share: 2},
@@ -78,7 +78,7 @@ func init() {
 		runner.Part{Scenario: "l0/rsmtwin", Params: p("focus", "snapshot", "enum", "1"), Share: 1, MaxRuns: 1200})
 	sh("C20", 90, 1200, runner.Part{Scenario: "simhost/import", Params: p("pmember", "0"), Share: 2},
 		runner.Part{Scenario: "simhost/import", Params: p("pmember", "12", "hosts", "5"), Share: 2})
-	sh("C11", 90, 1200, runner.Part{Scenario: "simhost", Params: p("smyield", "500", "pstop", "6", "psnapreq", "10"), Share: 2},
+	sh("C11", 120, 1200, runner.Part{Scenario: "simhost", Params: p("smyield", "500", "pstop", "6", "psnapreq", "10"), Share: 2},
 		runner.Part{Scenario: "simhost", Params: p("smyield", "300", "pcrash", "6"), Share: 1})
 	sh("C12", 90, 1200, runner.Part{Scenario: "simhost", Params: p("pstop", "4", "timeout", "30"), Share: 2},
 		// StopShard / restarts landing inside the step worker's request intake (engine yield points)
@@ -90,7 +90,7 @@ func init() {
 		runner.Part{Scenario: "simhost", Params: p("snapshot", "12", "fsyield", "300", "pcrash", "8", "torn", "1"), Share: 1},
 		// on-disk state machines that install streamed snapshots (lagging followers) and crash while doing so
 		runner.Part{Scenario: "simhost", Params: p("sm", "3", "hosts", "3", "snapshot", "5", "overhead", "0", "ppartition", "12", "pheal", "10", "pcrash", "12", "prestart", "60", "fsyield", "400", "ops", "40", "readmix", "10"), Share: 2})
-	sh("C17", 90, 1200, runner.Part{Scenario: "simhost", Share: 2},
+	sh("C17", 120, 1200, runner.Part{Scenario: "simhost", Share: 2},
 		runner.Part{Scenario: "simhost", Params: p("pmember", "10", "ptransfer", "8", "ppartition", "8"), Share: 1},
 		// few full members plus witnesses / non-voting members, crashes in the middle of saves
 		runner.Part{Scenario: "simhost", Params: p("hosts", "3", "voters", "1", "memberbias", "2", "pmember", "40", "pcrash", "15", "prestart", "80", "fsyield", "400", "readmix", "20"), Share: 1},
